@@ -374,22 +374,47 @@ class Ctx:
                     pass
 
     # ---- (G) generated layer ------------------------------------------------------------------
+    # topic -> (generated file, translator functions the topic's bridge lemmas depend on)
+    TOPICS = {
+        'blocks': ('Gen', ['t_buf_count', 't_blocks_fast', 't_blocks_full']),
+        'crop': ('Gen', ['t_slicing', 't_crop_px']),
+        'padcrop': ('Gen', ['t_padcrop']),
+        'eval': ('Gen', ['t_refine_clip', 't_shift']),
+        'qpat': ('GenQ', ['t_circular', 't_bgsub', 't_crop_size', 't_rgbs_map']),
+        'qbin': ('GenQ', ['t_bin', 't_rgbs']),
+        'qlat': ('GenQ', ['t_within', 't_calc']),
+        'qfm': ('GenQ', ['t_fullmatch']),
+        'qus': ('GenQ', ['t_upsample']),
+        'k': ('GenK', ['t_com', 't_refine', 't_unravel', 't_evaluate']),
+        'kcalls': ('GenK', ['t_calls_fast', 't_calls_full']),
+    }
+
     def check_generated(self, topics):
-        """regenerate Gen.v from /repo's current source, compile it and re-prove the bridge lemmas of the given topics
-        (files coq/gen/GenBridge_<topic>.v).  A failure is an unproved obligation; the box search for a concrete
-        argument on which generated and model definitions differ is appended to the detail."""
+        """regenerate Gen.v / GenQ.v / GenK.v from /repo's current source, compile them and re-prove the bridge lemmas of the
+        given topics (files coq/gen/GenBridge_<topic>.v).  A failure is an unproved obligation.  Only translator problems
+        in functions a requested topic depends on count: an unrelated part of the source that became untranslatable
+        must not alarm this property."""
         import translate
-        txt, problems = translate.translate(REPO)
+        import translate_q
+        import translate_k
         gendir = os.path.join(self.rundir, 'gen')
         os.makedirs(gendir, exist_ok=True)
-        with open(os.path.join(gendir, 'Gen.v'), 'w') as fh:
-            fh.write(txt)
+        files = sorted(set(self.TOPICS[t][0] for t in topics))
+        relevant = set(f for t in topics for f in self.TOPICS[t][1])
+        problems = []
+        for gf in files:
+            mod = {'Gen': translate, 'GenQ': translate_q, 'GenK': translate_k}[gf]
+            txt, probs = mod.translate(REPO)
+            problems += [pr for pr in probs if pr.split(':')[0] in relevant]
+            with open(os.path.join(gendir, gf + '.v'), 'w') as fh:
+                fh.write(txt)
         for pr in problems:
             self.obligation('G:translate %s' % pr.split(':')[0], False, 'translator (fail closed): ' + pr)
-        rc, out = coqc(os.path.join(gendir, 'Gen.v'), gendir, extra_q=[(gendir, 'BFGen')])
-        if rc != 0:
-            self.obligation('G:Gen.v compiles', False, out[-500:])
-            return False
+        for gf in files:
+            rc, out = coqc(os.path.join(gendir, gf + '.v'), gendir, extra_q=[(gendir, 'BFGen')])
+            if rc != 0:
+                self.obligation('G:%s.v compiles' % gf, False, out[-500:])
+                return False
         ok_all = not problems
         for t in topics:
             src = os.path.join(COQ, 'gen', 'GenBridge_%s.v' % t)
